@@ -43,6 +43,19 @@ func newC07Env(t *testing.T) *c07Env {
 	tc.enableAuth("ra", "recauth")
 	tc.mustOK(tc.req(logical.UpdateOperation, "sys/auth/token/tune", tc.root, map[string]any{"max_lease_ttl": "4h", "default_lease_ttl": "1h"}), "tune token mount")
 	tc.mustOK(tc.req(logical.UpdateOperation, "sys/auth/ra/tune", tc.root, map[string]any{"max_lease_ttl": "4h", "default_lease_ttl": "1h"}), "tune ra mount")
+	// an entity holding a policy no generated parent has, reachable through the alias "alias-admin" on the token mount
+	tc.writePolicy("entsecret", c07Plain)
+	am := tc.mustOK(tc.req(logical.ReadOperation, "sys/auth", tc.root, nil), "read auth mounts")
+	acc := ""
+	if tm, ok := am.Data["token/"].(map[string]any); ok {
+		acc, _ = tm["accessor"].(string)
+	}
+	if acc == "" {
+		t.Fatalf("harness: token mount accessor not found in %v", am.Data)
+	}
+	er := tc.mustOK(tc.req(logical.UpdateOperation, "identity/entity", tc.root, map[string]any{"name": "admin-ent", "policies": []string{"entsecret"}}), "entity")
+	eid, _ := er.Data["id"].(string)
+	tc.mustOK(tc.req(logical.UpdateOperation, "identity/entity-alias", tc.root, map[string]any{"name": "alias-admin", "canonical_id": eid, "mount_accessor": acc}), "entity alias")
 	return &c07Env{tc: tc, hub: hub}
 }
 
@@ -89,7 +102,7 @@ func globMatch(globs []string, s string) bool {
 }
 
 func TestVerif_C07_TokenCreate(t *testing.T) {
-	rec := verifx.NewRecorder("C07", "token-create", "a parent token (policy subset of {creator, sudoer, pa, pb, pc, default, root}, TTL, num_uses, service/batch) issues a creation request on create / create-orphan / create/<role> with generated parameters (policies, no_parent, no_default_policy, period, explicit_max_ttl, ttl, num_uses, id, type, display_name) and, for roles, generated role configuration (allowed/disallowed policies and globs, orphan, period, explicit max, token type, num uses); the outcome is read from the response and from a lookup of the stored token; invariants: non-sudo without role => policies within the parent's (default only if the parent has it and it was not declined), never orphan, periodic or caller-chosen id; root only from a root parent; use-limited and batch parents create nothing; create-orphan => orphan but otherwise the same; role => policies within allowed/glob (plus default per the role rule), none disallowed, orphan/period/type as the role says; every token except a non-expiring root made by a non-expiring root has 0 < ttl <= min(explicit max, mount max); a refused request creates no token; non-trivial = the request asked for something it is not entitled to")
+	rec := verifx.NewRecorder("C07", "token-create", "a parent token (policy subset of {creator, sudoer, pa, pb, pc, default, root}, TTL, num_uses, service/batch) issues a creation request on create / create-orphan / create/<role> with generated parameters (policies, no_parent, no_default_policy, period, explicit_max_ttl, ttl, num_uses, id, type, entity_alias) and, for roles, generated role configuration (allowed/disallowed policies and globs, allowed entity aliases, orphan, period, explicit max, token type); the outcome is read from the response and from a lookup of the stored token; invariants: non-sudo without role => policies within the parent's (default only if the parent has it and it was not declined), never orphan, periodic or caller-chosen id; root only from a root parent; use-limited and batch parents create nothing; create-orphan => orphan but otherwise the same; role => policies within allowed/glob (plus default per the role rule), none disallowed, orphan/period/type as the role says; a token is bound to an identity entity only when an entity_alias was requested through a role whose allowed_entity_aliases names it; every token except a non-expiring root made by a non-expiring root has 0 < ttl <= min(explicit max, mount max); a refused request creates no token; non-trivial = the request asked for something it is not entitled to")
 	defer rec.Flush()
 	var env *c07Env
 	defer func() {
@@ -179,9 +192,16 @@ func TestVerif_C07_TokenCreate(t *testing.T) {
 		if fairIndex(rt, "type", 4) == 0 {
 			data["type"] = []string{"service", "batch"}[fairIndex(rt, "typeVal", 2)]
 		}
+		entityAlias := ""
+		if fairIndex(rt, "entityAlias", 4) == 0 {
+			entityAlias = []string{"alias-admin", "alias-admin", "Alias-Admin", "alias-other"}[fairIndex(rt, "entityAliasVal", 4)]
+			data["entity_alias"] = entityAlias
+			asked["entity_alias"] = true
+		}
 		// ---- role
 		type roleCfg struct {
 			allowed, disallowed, allowedGlob []string
+			aliases                          []string // allowed_entity_aliases
 			orphan                           bool
 			period, explicitMax              time.Duration
 			tokenType                        string
@@ -205,7 +225,9 @@ func TestVerif_C07_TokenCreate(t *testing.T) {
 			}
 			role.tokenType = []string{"default-service", "service", "batch", "default-batch"}[fairIndex(rt, "roleType", 4)]
 			role.noDefault = fairIndex(rt, "roleNoDefault", 4) == 0
+			role.aliases = [][]string{nil, nil, {"alias-admin"}, {"alias-*"}, {"someone-else"}}[fairIndex(rt, "roleAliases", 5)]
 			rdata := map[string]any{
+				"allowed_entity_aliases": strings.Join(role.aliases, ","),
 				"allowed_policies": strings.Join(role.allowed, ","), "disallowed_policies": strings.Join(role.disallowed, ","),
 				"allowed_policies_glob": strings.Join(role.allowedGlob, ","), "orphan": role.orphan,
 				"token_period": int(role.period.Seconds()), "token_explicit_max_ttl": int(role.explicitMax.Seconds()),
@@ -252,7 +274,8 @@ func TestVerif_C07_TokenCreate(t *testing.T) {
 		violate := func(sig, f string, a ...any) {
 			rec.Violation(rt, sig, detail, f+" | %v", append(a, detail)...)
 		}
-		entitledBreach := asked["no_parent"] && !isSudo || asked["id"] && !isSudo || asked["period"] && !isSudo && role == nil ||
+		aliasAllowed := role != nil && (has(role.aliases, strings.ToLower(entityAlias)) || globMatch(role.aliases, strings.ToLower(entityAlias)))
+		entitledBreach := entityAlias != "" && !aliasAllowed || asked["no_parent"] && !isSudo || asked["id"] && !isSudo || asked["period"] && !isSudo && role == nil ||
 			has(reqPol, "root") && !isRoot || (!isSudo && role == nil && !subsetOf(reqPol, parentPolicies)) || parentLimited || parentBatch
 		cls := endpoint + ":" + map[bool]string{true: "created", false: "refused"}[created]
 		rec.Case(cls, entitledBreach, verifx.Digest(parentPolicies, endpoint, fmt.Sprint(data), fmt.Sprint(role), parentLimited, parentBatch), func() any { return detail })
@@ -291,6 +314,15 @@ func TestVerif_C07_TokenCreate(t *testing.T) {
 		typ, _ := ld["type"].(string)
 		id, _ := ld["id"].(string)
 		detail["stored"] = fmt.Sprintf("policies=%v orphan=%v ttl=%d creation_ttl=%d period=%v type=%s explicit_max_ttl=%v", pols, orphan, ttlN, creationTTL, ld["period"], typ, ld["explicit_max_ttl"])
+		entityID, _ := ld["entity_id"].(string)
+		idPols := toStrings(ld["identity_policies"])
+		if entityAlias != "" && !aliasAllowed {
+			violate("entity-alias-not-permitted", "the request named entity_alias %q, which %s, and a token was created (entity_id %q, identity policies %v)", entityAlias,
+				map[bool]string{true: "the plain endpoints refuse", false: fmt.Sprintf("the role's allowed_entity_aliases %v does not contain", func() []string { if role != nil { return role.aliases }; return nil }())}[role == nil], entityID, idPols)
+		}
+		if entityAlias == "" && (entityID != "" || len(idPols) > 0) {
+			violate("entity-without-alias-request", "the created token is bound to entity %q (identity policies %v) although no entity_alias was requested", entityID, idPols)
+		}
 		if has(pols, "root") && !isRoot {
 			violate("root-from-non-root-parent", "created token has the root policy, the parent does not")
 		}
